@@ -66,6 +66,12 @@ CLAIMED.update({
    note="exit(n) and sleep(n != 0) are not called in-process. Non-termination is decided up to a 30 s per-case horizon. Memory-exhausting requests and self-containing containers are excluded by the property.",
    technique="bounded exhaustive enumeration of calls/programs with a crash/hang invariant (catch_unwind + per-case process watchdog)"),
 })
+CLAIMED.update({
+ "C11": dict(level="model_checking", design="4.11",
+   text="Exhaustive contract table: 23 pure builtins x arity 0..3 x every tuple of 15 argument kinds through the real VM, then every documented signature x boundary values (singles and pairs of 69 values), compared with a transcription of docs/language/builtins.md (documented kinds => documented result incl. argument mutation; anything else => runtime error whose message starts with the builtin's name); laws over completely enumerated domains: int(str(n)) for |n|<=4096 and limits, float(str(x)) for k/8, |k|<=4096 and extreme floats, UTF-8/chars round trips for all strings of length<=3 over 6 characters, decode_utf8 on all byte arrays of length<=3 over 8 bytes, sort on all arrays of length<=5 over 6 comparable domains plus long arrays.",
+   note="Trusts mc/src/refbuiltins.rs. Results the documentation does not pin are only required not to crash and to name the builtin when they fail.",
+   technique="exhaustive enumeration of builtin x arity x argument-kind tuples and law domains against a contract table"),
+})
 NOT_YET = "check not built yet in this round (machinery under construction; see DESIGN.md section 4 for the planned check)"
 
 props = [json.loads(l) for l in open(os.path.join(HERE, "properties.jsonl"))]
